@@ -163,10 +163,13 @@ def old_cases(draw):
 
 # ---------------------------------------------------------------------------------------- oracle
 
-def run_screen(cap: Cap, cols, rows, r0, profile, region, what, frame_check=None):
+ANIM_Z = -(1 << 31)  # the z-index all kitty-style animations draw their frames on
+
+
+def run_screen(cap: Cap, cols, rows, r0, profile, region, what, frame_check=None, old_kitty_anim=False):
     """Replays the captured stream on the model, checking the 'outside unchanged' invariant at every
     flush; returns the final screen.  region = (Wp, Hp)."""
-    from ..vt import Screen
+    from ..vt import Placement, Screen
 
     Wp, Hp = region
     scr = Screen(cols, rows, profile=profile)
@@ -174,6 +177,27 @@ def run_screen(cap: Cap, cols, rows, r0, profile, region, what, frame_check=None
         scr.grid[y] = [(sentinel_row(y), None, None, frozenset(), None)] * cols
     scr.y = r0
     needed = max(0, r0 + Hp - (rows - 1))
+    # pictures that were on the screen before the call, outside the padded region (terminals with persistent
+    # placements only): the last frame of an earlier animation (same z-index as any animation) and an ordinary one
+    sentinels = []
+    if profile in ("kitty", "konsole") and Wp <= cols and Hp + 1 <= rows:
+        spots = [(cols - 1, y) for y in range(rows) if Wp < cols] + [(0, y) for y in range(rows) if not r0 <= y < r0 + Hp]
+        spots = [(x, y) for x, y in spots if not (r0 <= y < r0 + Hp and x < Wp)]
+        for z, (x, y) in zip((ANIM_Z, 7), spots[:: max(1, len(spots) // 2)] if spots else []):
+            pl = Placement("kitty", x, y, 1, 1, z, 0x5E47, {"sentinel": True, "y0": y})
+            scr.placements.append(pl)
+            sentinels.append(pl)
+
+    def sentinels_ok(when):
+        for pl in sentinels:
+            if pl.meta["y0"] - scr.scrolls < 0:
+                continue  # scrolled off the top
+            if pl.z == ANIM_Z and old_kitty_anim:
+                continue  # documented: on kitty <= 0.25.0 frames of earlier animations are cleared as well
+            if not any(q is pl for q in scr.placements):
+                raise Violation(f"{what}: a picture (z-index {pl.z}) that was on the screen at {(pl.x, pl.meta['y0'])}, outside "
+                                f"the padded region {Wp}x{Hp}@row {r0}, before the call is gone ({when})",
+                                {"clause": "outside_image", "anim_z": pl.z == ANIM_Z})
 
     def outside_ok(when):
         s = scr.scrolls
@@ -191,7 +215,10 @@ def run_screen(cap: Cap, cols, rows, r0, profile, region, what, frame_check=None
                 if not ok:
                     raise Violation(f"{what}: cell {(x, y)} outside the padded region {Wp}x{Hp}@row {top} changed to {ch} "
                                     f"({when}; scrolled {s})", {"clause": "outside"})
+        sentinels_ok(when)
         for p in scr.placements:
+            if p.meta.get("sentinel"):
+                continue
             if not (top <= p.y and p.y + p.r <= top + Hp and p.x + p.c <= Wp):
                 raise Violation(f"{what}: graphics placement {(p.x, p.y, p.c, p.r)} outside the padded region "
                                 f"{Wp}x{Hp}@row {top} ({when})", {"clause": "outside"})
@@ -487,7 +514,13 @@ def _check_old(c, rec, image, cls, InvalidSizeError, resolve_pad):
         return
     profile = env.model_profile()
     tall = Hp + 1 > rows
-    scr, outside_ok = run_screen(cap, cols, rows, r0, profile, (Wp, Hp), what)
+    ident = tuple(c["ident"])
+    try:
+        vt_ = tuple(map(int, ident[1].split(".")))
+    except ValueError:
+        vt_ = ()
+    old_kitty_anim = bool(animation and c["style"] == "kitty" and ident[0] == "kitty" and vt_ and vt_ <= (0, 25, 0))
+    scr, outside_ok = run_screen(cap, cols, rows, r0, profile, (Wp, Hp), what, old_kitty_anim=old_kitty_anim)
     final_checks(scr, cap, c, what, Hp, r0, c["tty"])
     if not tall:
         outside_ok("at the end")
@@ -510,12 +543,13 @@ def _check_old(c, rec, image, cls, InvalidSizeError, resolve_pad):
                         raise Violation(f"{what}: cell {(x, y)} of the final picture is not covered by an image", {"clause": "picture"})
                     if not in_rect and scr.grid[y][x] != (" ", None, None, frozenset(), None):
                         raise Violation(f"{what}: padding cell {(x, y)} is {scr.grid[y][x]}", {"clause": "padding"})
-                    if not in_rect and any(p.covers(x, y) for p in scr.placements):
+                    if not in_rect and any(p.covers(x, y) for p in scr.placements if not p.meta.get("sentinel")):
                         raise Violation(f"{what}: a graphics placement covers padding cell {(x, y)}", {"clause": "padding"})
             # only the last frame may be on screen: no earlier frame left underneath it
             stacked = {}
             for p in scr.placements:
-                stacked.setdefault((p.x, p.y, p.c, p.r), []).append(p.z)
+                if not p.meta.get("sentinel"):
+                    stacked.setdefault((p.x, p.y, p.c, p.r), []).append(p.z)
             for rect, zs in stacked.items():
                 # judged only on the terminals the style supports (kitty, konsole); elsewhere
                 # (forced support on an unknown terminal) frame-clearing behaviour is unspecified
